@@ -13,6 +13,8 @@ def dispatch (op : String) (args : List Sexp) : String :=
   | "slc.writereq" => opSlcWriteReq args
   | "slc.reply" => opSlcReply args
   | "k.plan" => opKPlan args
+  | "k.records" => opKRecords args
+  | "k.template" => opKTemplate args
   | "k.msg" => opKMsg args
   | "k.readreply" => opKReadReply args
   | "k.masks" => opKMasks args
